@@ -678,10 +678,10 @@ class XsdGroup(XsdComponent, MutableSequence[ModelParticleType],
 
     @schema_cache
     def is_restriction(self, other: ModelParticleType, check_occurs: bool = True) -> bool:
-        if not self._group:
-            return True
-        elif not isinstance(other, ParticleMixin):
+        if not isinstance(other, ParticleMixin):
             raise XMLSchemaValueError("the argument 'other' must be an XSD particle")
+        elif not self._group:
+            return other.is_emptiable()
         elif not isinstance(other, XsdGroup):
             return self.is_element_restriction(other)
         elif not other:
@@ -1285,10 +1285,10 @@ class Xsd11Group(XsdGroup):
             return model == 'choice' or len(self.ref or self) <= 1
 
     def is_restriction(self, other: ModelParticleType, check_occurs: bool = True) -> bool:
-        if not self._group:
-            return True
-        elif not isinstance(other, ParticleMixin):
+        if not isinstance(other, ParticleMixin):
             raise XMLSchemaValueError("the argument 'base' must be a %r instance" % ParticleMixin)
+        elif not self._group:
+            return other.is_emptiable()
         elif not isinstance(other, XsdGroup):
             return self.is_element_restriction(other)
         elif not other:
